@@ -308,6 +308,17 @@ func genHandle(r *rand.Rand, thorough bool, emit func(c, cat string)) {
 		if r.Intn(10) == 0 {
 			qname = wireLabels([]byte("nomatch"), []byte("test"))
 		}
+		if r.Intn(6) == 0 { // a deep name under one of the entries (ip6.arpa-like: up to 40 short labels in front)
+			var deep []byte
+			for k := []int{1, 2, 5, 14, 15, 16, 17, 30, 40}[r.Intn(9)]; k > 0; k-- {
+				l := 1 + r.Intn(2)
+				deep = append(deep, byte(l))
+				for j := 0; j < l; j++ {
+					deep = append(deep, "0123456789abcdefXY"[r.Intn(18)])
+				}
+			}
+			qname = append(deep, qname...)
+		}
 		qtype := []int{1, 28, 15, 16, 255}[r.Intn(5)]
 		qclass := 1
 		if r.Intn(10) == 0 {
